@@ -98,7 +98,9 @@ def shard_glob_random(seed, idx, n):
 # ---------------------------------------------------------------- rules
 
 PATHS = ["foo", "bar", "baz.py", "src/a.py", "src/b.py", "src/sub/c.py", "dst/a.py", "dst/b.py",
-         "build/out", "a b", "ünï/ç", "x[1]", "src/foo", "dst/foo", "sub/dir/foo"]
+         "build/out", "a b", "ünï/ç", "x[1]", "src/foo", "dst/foo", "sub/dir/foo",
+         # look-alikes: start with the characters of a prefix without lying below it
+         "srcfoo", "srca.py", "dstfoo", "sub/dirfoo", "buildout"]
 ODD_PATHS = ["src//q", "src\\w", "/abs"]
 HASHES = ["aa11", "bb22", "cc33"]
 PATTERNS = ["*", "foo", "src/*", "*.py", "[sd]*", "?oo", "nomatch", "src/a.py", "*/a.py", "b*",
